@@ -500,6 +500,10 @@ def s_rint(x):
     x = _num(x)
     if _conc(x):
         return np.rint(x)
+    if isinstance(x, SFP):
+        return SFP(z3.fpRoundToIntegral(core.RNE, x.t))
+    if isinstance(x, (SBV, UVal)):
+        return x
     if isinstance(x, SInt):
         return x
     return core._as_real(x.rint())
